@@ -396,7 +396,26 @@ func report(pool *Pool, fails []failure, kf []kfEntry, out *res.Result, tier str
 				unexplained = append(unexplained, f)
 			}
 		}
+		// representatives: spread over the distinct panic messages seen at this site
+		spread := func(fs []failure) []failure {
+			seen := map[string]int{}
+			var first, rest []failure
+			for _, f := range fs {
+				m := normMsg(f.reason)
+				if seen[m] == 0 {
+					first = append(first, f)
+				} else {
+					rest = append(rest, f)
+				}
+				seen[m]++
+			}
+			return append(first, rest...)
+		}
+		unexplained, explained = spread(unexplained), spread(explained)
 		limU, limE := 3, 2
+		if os.Getenv("WRH_C01_ALLFINDINGS") != "" {
+			limU, limE = 6, 6
+		}
 		if f0 := fs[0]; f0.key == "hang" {
 			limU = 4
 			if tier == "thorough" {
@@ -409,7 +428,7 @@ func report(pool *Pool, fails []failure, kf []kfEntry, out *res.Result, tier str
 			}
 		}
 		for i, f := range explained {
-			if i < limE && len(unexplained) < 3 {
+			if i < limE && (len(unexplained) < 3 || os.Getenv("WRH_C01_ALLFINDINGS") != "") {
 				jobs = append(jobs, job{f, true})
 			}
 		}
@@ -428,6 +447,10 @@ func report(pool *Pool, fails []failure, kf []kfEntry, out *res.Result, tier str
 	}
 	wg.Wait()
 	// unexplained first (res.Result caps the number of findings per class and overall)
+	if p := os.Getenv("WRH_C01_ALLFINDINGS"); p != "" {
+		b, _ := json.MarshalIndent(results, "", " ")
+		os.WriteFile(p, b, 0o644)
+	}
 	// round-robin over the classes so that every class is represented before the overall cap is reached
 	for pass := 0; pass < 2; pass++ {
 		for round := 0; round < 12; round++ {
@@ -444,6 +467,16 @@ func report(pool *Pool, fails []failure, kf []kfEntry, out *res.Result, tier str
 			}
 		}
 	}
+}
+
+var digits = regexp.MustCompile(`[0-9]+`)
+
+func normMsg(m string) string {
+	m = digits.ReplaceAllString(m, "N")
+	if strings.HasPrefix(m, "Got ") {
+		m = "Got ... between two lines"
+	}
+	return head(m, 60)
 }
 
 func shrinkOne(pool *Pool, f failure) res.Finding {
